@@ -134,7 +134,7 @@ def c08(A):
             if kind == "PUBLISH" and len(gaps) >= 2 and not A.stall_total:     # (a blocked reactor stretches single gaps)
                 o.dec("gap_pairs", len(gaps) - 1)
                 for (g1, x1, y1), (g2, x2, y2) in zip(gaps, gaps[1:]):
-                    if g2 < g1 - 4e-6:
+                    if g2 < g1 - 4e-6 - A.cfg.late:      # (a late-running reactor may delay some expiries more than others)
                         fs = c_factors(A, c, r, first)
                         if any(f < 1 for f in fs):
                             sub = "factor<1"          # (was a known finding until fix 32)
@@ -290,7 +290,10 @@ def c13(A):
                   "%d delayed calls pending, at most %d explained by the boundary state: %r" % (total, emax, [(round(t, 3), n) for (t, n, _) in sn["calls"]][:6]),
                   step_no)
             break
-        if total < emin:
+        # While anything awaits an acknowledgement on a live connection something must be scheduled to repeat it.
+        # (Not "one call per packet": an implementation may multiplex all deadlines behind one wake-up call.)
+        need = min(emin, 1)
+        if total < need:
             o.bad("missing-timer", "%d packets await acknowledgement on live connections but only %d delayed calls are pending" % (emin, total), step_no)
             break
     # (d) after the final loss and the drain nothing remains
